@@ -1085,6 +1085,7 @@ def check_results_offset_contract():
                  requires=lambda S, a: [("0 <= rank < size, nfun >= 0", z3.And(0 <= R, R < P, NF >= 0))], ensures=ensures, setup=setup, region=_cr_offset_region,
                  raises=lambda S, a, e: z3.BoolVal(False))
     c.region_name = "offset of the reported indices"
+    c.live_ins = ("to_change",)
     return c
 
 
